@@ -532,8 +532,10 @@ def generate(rng, tier):
         for n in mids:
             for scen in range(6):
                 cases.append(_boundary_case(rng, symf, n, scen + 6 * rng.randrange(4)))
-        for n in (BLOCKSIZE - 1, BLOCKSIZE, BLOCKSIZE + 1):
-            for scen in range(6):
+        # fully generated (non-sparse) 64 MiB blocks: three of the six scenarios per size (the
+        # zero-filled blocks above go through all six)
+        for i, n in enumerate((BLOCKSIZE - 1, BLOCKSIZE, BLOCKSIZE + 1)):
+            for scen in rng.sample(range(6), 3):
                 cases.append(_boundary_case(rng, symf, n, scen + 6 * rng.randrange(4)))
     return cases
 
